@@ -2,6 +2,7 @@ import Gengo.Basic.Proto
 import Gengo.Model.Loader
 import Gengo.Model.Predicates
 import Gengo.Generated.Facts
+import Gengo.Model.FactsCheck
 namespace Gengo.Driver.Universe
 open Gengo Gengo.Proto Gengo.Universe Gengo.Loader
 
@@ -170,6 +171,12 @@ def handle (st : St) : List Str → St × Str
             else st.ls.u.decl (if what = str "func" then .func else if what = str "var" then .var else .const) n
           ({ st with ls := { st.ls with u := r.1 } }, str "ok")
       | _ => (st, str "bad-op")
+    else if op = str "hyp" then
+      -- do the facts meet the hypotheses of the universe theorems? (decided by `Model/FactsCheck`, sound by `Lemmas/FactsCheckSound`)
+      let t : FactsCheck.Tab := ⟨st.nodes, st.strs⟩
+      let b := fun (x : Bool) => if x then '1' else '0'
+      (st, str "hyp nogenerics=" ++ [b (FactsCheck.noGenericsB t)] ++ str " wellformed=" ++ [b (FactsCheck.wellFormedB st.v2 t)] ++
+        str " consistent=" ++ [b (FactsCheck.consistentB st.v2 t)])
     else if op = str "inputs" then (st, hexList (st.ls.requested.mergeSort Str.le))
     else if op = str "dump" then (st, hex (dump st.ls.u))
     else (st, str "bad-op")
